@@ -54,6 +54,12 @@ func (w *World) interleaveReader(f *simfs.FS, writer func(), reader func(obs *[]
 			<-procs[i].turn
 		}
 	}
+	if w.libYields {
+		// two callers of the same store.Dir: the statements of the shared hashers are scheduling
+		// points too (simgen inserts simrt.LibYield there)
+		simrt.LibHook = func(string) { f.Gate() }
+		defer func() { simrt.LibHook = nil }()
+	}
 	start := func(i int, body func()) {
 		ready := make(chan struct{})
 		go func() {
